@@ -395,3 +395,33 @@ def policy_cases(kind: str, seed: int, n_keys: int, n: int = 3) -> list:
                     _, a = pol(None, obs, key=jr.key(seed * 131 + k), action_mask=mj)
                     out.append(dict(ev="policy", mode=mode, kind=f"q_eps{eps}", atoms={}, comps=[dict(ranks=ranks, m=m, a=int(a))]))
     return out
+
+
+def sac_policy_case(low, high, seed: int, n_obs: int = 4, n_keys: int = 6) -> dict:
+    """MLPSACPolicy on a Box action space (possibly asymmetric bounds): the key-less action is the mode of the very distribution the
+    keyed calls sample from and score, it lies within the bounds, and action_and_log_prob reports the log-probability of the
+    action it returns."""
+    from lerax.policy import MLPSACPolicy
+    lo, hi = jnp.asarray(low, dtype=jnp.float32), jnp.asarray(high, dtype=jnp.float32)
+    env = SpaceEnv(Box(lo, hi) if lo.shape else Box(float(low), float(high), shape=()))
+    pol = MLPSACPolicy(env, feature_size=8, width_size=8, depth=1, key=jr.key(seed))
+    rng = np.random.default_rng(seed)
+    atoms = {"KeylessActionIsTheModeOfTheSampledLaw": True, "KeylessActionWithinBounds": True, "KeyedActionWithinBounds": True,
+             "ReportedLogProbIsOfTheReturnedAction": True, "KeylessCallIsDeterministic": True}
+    for _ in range(n_obs):
+        obs = jnp.asarray(rng.uniform(-1, 1, size=3), dtype=jnp.float32)
+        _, dist = pol.action_distribution(None, obs)
+        _, a0 = pol(None, obs)
+        _, a0b = pol(None, obs)
+        mode = np.asarray(dist.mode())
+        atoms["KeylessActionIsTheModeOfTheSampledLaw"] &= bool(np.allclose(np.asarray(a0), mode, rtol=1e-5, atol=1e-6))
+        atoms["KeylessCallIsDeterministic"] &= bool(np.array_equal(np.asarray(a0), np.asarray(a0b)))
+        atoms["KeylessActionWithinBounds"] &= bool(np.all(np.asarray(a0) >= np.asarray(lo) - 1e-6) and np.all(np.asarray(a0) <= np.asarray(hi) + 1e-6))
+        for k in range(n_keys):
+            _, a, lp = pol.action_and_log_prob(None, obs, key=jr.key(seed * 100 + k))
+            atoms["KeyedActionWithinBounds"] &= bool(np.all(np.asarray(a) >= np.asarray(lo) - 1e-6) and np.all(np.asarray(a) <= np.asarray(hi) + 1e-6))
+            atoms["ReportedLogProbIsOfTheReturnedAction"] &= bool(abs(float(lp) - float(np.sum(np.asarray(dist.log_prob(a))))) <= 1e-3)
+            _, a2 = pol(None, obs, key=jr.key(seed * 100 + k))
+            atoms["KeyedActionWithinBounds"] &= bool(np.all(np.asarray(a2) >= np.asarray(lo) - 1e-6) and np.all(np.asarray(a2) <= np.asarray(hi) + 1e-6))
+    return dict(ev="cont", kind="MLPSACPolicy", params={"low": list(np.asarray(lo, dtype=float).reshape(-1)), "high": list(np.asarray(hi, dtype=float).reshape(-1))},
+                atoms={k: bool(v) for k, v in atoms.items()})
